@@ -80,10 +80,10 @@ class DictV(V):
 
 
 class MapV(V):
-    """Finite map with symbolic domain: dom : K -> Bool, val : K -> V."""
-    def __init__(self, dom, val, kkind, vkind):
-        self.dom = dom
-        self.val = val
+    """Mutable finite map (dict / UserDict): arr : K -> Opt(V), absent keys map to none.
+    The object is shared by reference like a Python dict; `arr` is rebound on update."""
+    def __init__(self, arr, kkind, vkind):
+        self.arr = arr
         self.kkind = kkind
         self.vkind = vkind
 
